@@ -18,6 +18,7 @@ type vfC11Case struct {
 	Scen  vfScenario `json:"scenario"`
 	Ev    vfEvent    `json:"event"`
 	Fault string     `json:"fault"` // silence_c2s silence_s2c silence_both client_write_error dest_full source_shrink source_remove
+	Plan  []vfYieldStep `json:"plan,omitempty"` // schedule perturbation of the client side (yield-instrumented build only)
 }
 
 type vfC11Res struct {
@@ -82,6 +83,10 @@ func vfC11Run(cs vfC11Case, res *vfC11Res) string {
 		}
 	}
 	vfCurCase("TestVF_C11", cs)
+	if len(cs.Plan) > 0 {
+		vfInstallPlan(cs.Plan)
+		defer vfClearPlan()
+	}
 	before := vfGoroutineIDs(vfTransferGoroutines())
 	sess := vfNewSession(sc.Sess)
 	defer sess.close()
@@ -394,4 +399,93 @@ func vfC11One(t *testing.T, c *vfCollector, cs vfC11Case) bool {
 		return false
 	}
 	return true
+}
+
+
+// vfPipelineSites lists the yield sites of the pipeline stages, those on lines with channel operations, selects,
+// cancellation or waits four times (weighted choice).
+func vfPipelineSites() []string {
+	re := regexp.MustCompile(`vfYield\("([^"]+)"\); (.*)`)
+	var out []string
+	for _, f := range []string{"pipeline.go", "transfer.go", "buffer.go", "append.go"} {
+		b, err := os.ReadFile(f)
+		if err != nil {
+			continue
+		}
+		for _, m := range re.FindAllSubmatch(b, -1) {
+			site, rest := string(m[1]), string(m[2])
+			w := 1
+			for _, kw := range []string{"<-", "select", "cancel", "ctx.", "Wait()", "Done()", "close(", "bufInit", "recvCheck", "checkStop"} {
+				if strings.Contains(rest, kw) {
+					w = 4
+				}
+			}
+			for i := 0; i < w; i++ {
+				out = append(out, site)
+			}
+		}
+	}
+	return out
+}
+
+// TestVF_C11Perturbed: a sample of the fault points again, with a plan of 1-4 delays (Gosched .. 20 ms) at weighted sites of
+// the pipeline stages of the in-process client (yield-instrumented build). The plan is derived from the point's hash and
+// stored in the case, so a replay is exact.
+func TestVF_C11Perturbed(t *testing.T) {
+	c := vfNewCollector("C11", "TestVF_C11Perturbed")
+	defer vfFlushAll()
+	if vfReplayOnly() {
+		return
+	}
+	sites := vfPipelineSites()
+	if len(sites) == 0 {
+		c.note("sources are not yield-instrumented: the perturbed variant did not run")
+		c.eval(map[string]any{"perturbed": "not instrumented"}, false, "not_instrumented")
+		return
+	}
+	defer func() {
+		if lm := vfLeakSweep(c, true); lm != "" {
+			t.Errorf("%s", lm)
+		}
+	}()
+	shard, shards := vfShard()
+	stride := vfEnvInt("VERIF_C11P_STRIDE", 1)
+	seed := vfEnvInt("VERIF_SEED", 1)
+	delays := []int{-1, -10, 100, 1000, 5000, 20000}
+	for _, sc := range vfScenarios() {
+		if sc.Cfg.Protocol < 2 {
+			continue
+		}
+		sc.Cfg.Timeout = 2
+		nc, ns, msg := vfDryRun(sc)
+		if msg != "" {
+			c.violation("dryrun", sc, msg)
+			t.Fatalf("%s", msg)
+		}
+		for _, fault := range []string{"silence_c2s", "silence_s2c", "client_write_error"} {
+			for _, dir := range []string{"c2s", "s2c"} {
+				n := nc
+				if dir == "s2c" {
+					n = ns
+				}
+				for k := 2; k < n; k++ {
+					h := vfPointHash("perturbed", sc.Name, fault, dir, k)
+					if int(h%uint64(shards)) != shard || (int(h/uint64(shards)%1000003)+seed)%stride != 0 {
+						continue
+					}
+					x := h | 1
+					next := func() uint64 { x ^= x << 13; x ^= x >> 7; x ^= x << 17; return x }
+					var plan []vfYieldStep
+					for i := 0; i < 1+int(next()%4); i++ {
+						plan = append(plan, vfYieldStep{Site: sites[next()%uint64(len(sites))], Hit: int(next() % 6), Delay: delays[next()%uint64(len(delays))]})
+					}
+					cs := vfC11Case{Scen: sc, Ev: vfEvent{Dir: dir, K: k, Before: next()%2 == 0}, Fault: fault, Plan: plan}
+					c.label("perturbed")
+					if !vfC11One(t, c, cs) {
+						return
+					}
+				}
+			}
+		}
+	}
 }
